@@ -300,6 +300,13 @@ def histogram(part, c):
             if sum(tb["powers"]) >= 2 * 10 ** 16:
                 out.append("table total>=2e16")
         return out
+    if part == "system":
+        n = len(c["tokens"])
+        out = ["system", "M<n" if c["M"] < n else ("M=n" if c["M"] == n else "M>n")]
+        for name, i in (("set_cap", 2), ("power_cap", 3), ("min_stake", 4), ("allow_inactive", 5), ("allowlist", 6), ("denylist", 7)):
+            if any(o[0] == 10 and o[i] for o in c["ops"]):
+                out.append("system " + name)
+        return out
     out = ["history"]
     kinds = {1: "op set_top_n", 2: "op launch", 3: "op epoch", 4: "op opt_in", 5: "op opt_out", 6: "op power", 7: "op jail"}
     for o in c["ops"]:
@@ -316,3 +323,10 @@ PARTS = [
     Part("minpower", "c03", "topn", gen_minpower, nontrivial=nontrivial_minpower, describe=describe),
     Part("history", "c03", "topn", gen_history, nontrivial=nontrivial_history, describe=describe),
 ]
+
+# ---- composed model (Model/EligibilityTopN.v = Eligibility x TopN): theorems in Props/C03System.v, part "system" in harness/c03sys/part.py
+EXTRA_PROPS = ["C03System"]
+import importlib.util as _ilu, os as _os
+_spec = _ilu.spec_from_file_location("c03sys_part", _os.path.join(_os.path.dirname(_os.path.abspath(__file__)), "..", "..", "harness", "c03sys", "part.py"))
+_c03sys = _ilu.module_from_spec(_spec); _spec.loader.exec_module(_c03sys)
+PARTS.append(_c03sys.PART)
